@@ -324,14 +324,27 @@ func (r *runner) run(steps []step, rnd *rand.Rand) int {
 				r.viol("sync:ondata:requested-rejected", "%s: OnData for requested hash %x failed: %v", at, key, err)
 				return i
 			}
-			if !r.present(e) {
-				r.viol("sync:ondata:not-stored", "%s: requested data %x was accepted but is not in the store", at, key)
+			for _, bid := range bids { // it must be in the bucket of EVERY requester
+				if !r.present(entry{bid, string(key), nil}) {
+					r.viol("sync:ondata:not-stored", "%s: requested data %x was accepted but is not in bucket %q of a requester", at, key, bid)
+				}
 			}
 		case "dup":
 			if len(r.given) == 0 {
 				break
 			}
-			v := r.given[rnd.Intn(len(r.given))]
+			// (a hash may legitimately be requested again for another bucket: only data that is not requested now)
+			req := r.requested()
+			var cand [][]byte
+			for _, g := range r.given {
+				if !req[string(crypto.SHA3Sum256(g))] {
+					cand = append(cand, g)
+				}
+			}
+			if len(cand) == 0 {
+				break
+			}
+			v := cand[rnd.Intn(len(cand))]
 			if err := r.bd.OnData(db.MerkleTrie, v); err != merkle.ErrNoRequester {
 				r.viol("sync:ondata:duplicate", "%s: OnData for already delivered data returned %v, spec says ErrNoRequester", at, err)
 			}
